@@ -13,6 +13,7 @@ import (
 	"sort"
 	"strings"
 	"sync"
+	"time"
 
 	"github.com/ozontech/seq-db/verifhook"
 
@@ -76,11 +77,16 @@ func main() {
 	seed := flag.Int("seed", 1, "")
 	out := flag.String("out", "lc.ndjson", "")
 	outRet := flag.String("retention", "ret.ndjson", "")
+	sealSuicide := flag.Bool("sealsuicide", false, "retention hits a fraction WHILE it is being sealed (sealer parked at pf.idle until the deletion waits for it); afterwards its files must be gone and it must not reappear after a restart")
 	actSuicide := flag.Bool("activesuicide", false, "record retention deleting the ACTIVE fraction (TotalSize 1, no rotation); the process exits without stopping the store")
 	flag.Parse()
 	if !verifhook.Enabled {
 		fmt.Println(`{"infra":"built without -tags verif"}`)
 		os.Exit(3)
+	}
+	if *sealSuicide {
+		runSealSuicide(*skip, *out)
+		return
 	}
 	verifhook.Set(observer)
 	// FracSize 1: every maintenance pass with data rotates and seals. TotalSize small: after a few
@@ -173,4 +179,112 @@ func main() {
 	}
 	fr.Close()
 	fmt.Printf(`{"summary":true,"fractions":%d,"events":%d,"fm_events":%d,"shifts":%d}`+"\n", len(order), lines, len(fmEv), shifts)
+}
+
+// runSealSuicide: one maintenance pass with FracSize 1 and TotalSize 1 rotates the fraction, starts its
+// seal and, in the same pass, lets retention pop it. The sealer is parked at pf.idle until the
+// deletion has been issued, so proxyFrac.Suicide really waits for the seal in flight.
+func runSealSuicide(skip bool, out string) {
+	var shifted = make(chan struct{}, 4)
+	parkedCh := make(chan chan struct{}, 1)
+	first := true
+	var hmu sync.Mutex
+	verifhook.Set(func(point string, obj any, a, b int64) {
+		observer(point, obj, a, b)
+		switch point {
+		case "fm.shift":
+			shifted <- struct{}{}
+		case "pf.idle":
+			hmu.Lock()
+			mine := first
+			first = false
+			hmu.Unlock()
+			if mine {
+				ch := make(chan struct{})
+				parkedCh <- ch
+				<-ch
+			}
+		}
+	})
+	e, err := env.New(env.Opts{SkipFsync: true, SkipSortDocs: skip, FracSize: 1, TotalSize: 1})
+	if err != nil {
+		fmt.Printf(`{"infra":%q}`+"\n", err.Error())
+		os.Exit(3)
+	}
+	var bulk []env.Doc
+	for i := 1; i <= 5; i++ {
+		bulk = append(bulk, env.Doc{MID: uint64(1000 + i), RID: uint64(i), Tok: map[string][]string{"k": {"t"}}, Body: fmt.Sprintf(`{"n":%d}`, i)})
+	}
+	target := e.FM().Active().Info().Name()
+	if err := e.Bulk(bulk); err != nil {
+		fmt.Printf(`{"infra":%q}`+"\n", "bulk: "+err.Error())
+		os.Exit(3)
+	}
+	e.WaitIdle()
+	mark(e, "ingest")
+	done := make(chan struct{})
+	go func() { e.FM().VerifMaintenance(); close(done) }()
+	var gate chan struct{}
+	select {
+	case gate = <-parkedCh:
+	case <-time.After(20 * time.Second):
+		fmt.Println(`{"infra":"sealer did not reach pf.idle"}`)
+		os.Exit(3)
+	}
+	select {
+	case <-shifted:
+	case <-time.After(20 * time.Second):
+		fmt.Println(`{"infra":"retention did not pop the sealing fraction"}`)
+		os.Exit(3)
+	}
+	time.Sleep(50 * time.Millisecond) // the deletion goroutine reaches sealWg.Wait
+	close(gate)
+	select {
+	case <-done:
+	case <-time.After(60 * time.Second):
+		fmt.Println(`{"n":0,"what":"maintenance pass did not finish: seal and deletion of the same fraction dead-locked"}`)
+		os.Exit(0)
+	}
+	verifhook.Set(nil)
+	var left []string
+	ents, _ := os.ReadDir(e.O.Dir)
+	for _, en := range ents {
+		if strings.HasPrefix(en.Name(), target) {
+			left = append(left, strings.TrimPrefix(en.Name(), target))
+		}
+	}
+	if len(left) > 0 {
+		b, _ := json.Marshal(map[string]any{"n": 0, "what": fmt.Sprintf("fraction deleted by retention while it was being sealed left files behind: %v", left)})
+		fmt.Println(string(b))
+	}
+	e.Halt()
+	if err := e.Reopen(); err != nil {
+		b, _ := json.Marshal(map[string]any{"n": 1, "what": "store did not start after the deletion: " + err.Error()})
+		fmt.Println(string(b))
+	} else {
+		n := 0
+		for _, f := range e.FM().GetAllFracs() {
+			n += int(f.Info().DocsTotal)
+		}
+		if n != 0 {
+			b, _ := json.Marshal(map[string]any{"n": 2, "what": fmt.Sprintf("%d documents of the fraction deleted by retention are served again after a restart", n)})
+			fmt.Println(string(b))
+		}
+		e.Halt()
+	}
+	// life-cycle trace of the target fraction
+	mu.Lock()
+	defer mu.Unlock()
+	fh, _ := os.Create(out)
+	enc := json.NewEncoder(fh)
+	enc.Encode(map[string]any{"ev": "RESET", "k": ""})
+	lines := 0
+	for _, x := range evs {
+		if x.frac == target {
+			enc.Encode(map[string]any{"ev": x.op, "k": x.kind})
+			lines++
+		}
+	}
+	fh.Close()
+	fmt.Printf(`{"summary":true,"fractions":1,"events":%d,"fm_events":%d,"shifts":1}`+"\n", lines, len(fmEv))
 }
